@@ -124,7 +124,7 @@ def Simplex.maxUncertainty (s : Simplex α n) (a : Tab α n) : α :=
 def Simplex.uncertaintyMaximized (s : Simplex α n) (a : Tab α n) : Simplex α n :=
   let p := s.projection a
   let um := s.maxUncertainty a
-  ⟨Vector.ofFn fun i => p[i] - a[i] * um, um⟩
+  Simplex.normalized (Vector.ofFn fun i => p[i] - a[i] * um) um
 
 /-- `Discount for Simplex` -/
 def Simplex.discount (s : Simplex α n) (t : α) : Simplex α n :=
